@@ -22,7 +22,7 @@ type ContainerInfo struct {
 	Size      int
 	// footer section offsets
 	RefIndexOff, ObjOff, ObjIndexOff, LogOff, LogIndexOff uint64
-	ObjIDLen                                                int
+	ObjIDLen                                              int
 }
 
 // ValidateContainer decides "complete, valid table" at container level:
@@ -106,11 +106,11 @@ func ValidateContainer(b []byte) (*ContainerInfo, error) {
 // TableContent is the harness' own reading of one table: all records,
 // deletions included, through the library's reader (full scans only).
 type TableContent struct {
-	Name string
-	Info *ContainerInfo
-	Refs []Ref
-	Logs []Log
-	Err  error // not a complete, valid table
+	Name  string
+	Info  *ContainerInfo
+	Refs  []Ref
+	Logs  []Log
+	Err   error // not a complete, valid table
 	Bytes int
 }
 
